@@ -12,8 +12,11 @@ def one(path):
         r = subprocess.run('git -C /repo archive HEAD | tar -x -C %s && cd %s && git init -q . && git apply %s' % (d, d, path), shell=True, capture_output=True, text=True)
         if r.returncode:
             return name, {'apply': r.stderr[:200]}
-        rt = subprocess.run('/verif/tools/basecheck.sh %s' % d, shell=True, capture_output=True, text=True)
-        out['tests'] = rt.returncode
+        if os.environ.get('BENIGN_SKIP_TESTS') == '1':
+            out['tests'] = 0
+        else:
+            rt = subprocess.run('/verif/tools/basecheck.sh %s' % d, shell=True, capture_output=True, text=True)
+            out['tests'] = rt.returncode
         own = name[:3]
         for c in [own] + [x for x in ALL if x != own]:
             env = dict(os.environ, VERIF_REPO=d, VERIF_OUT=d, VERIF_SHARDS='2')
@@ -23,17 +26,19 @@ def one(path):
     finally:
         shutil.rmtree(d, ignore_errors=True)
     return name, out
-paths = sorted(glob.glob('/tmp/benign_C*/*/patch.diff')) or sorted(glob.glob('/verif/benign/*/patch.diff'))
+paths = (sorted(glob.glob('/verif/benign/*/patch.diff')) if os.environ.get('BENIGN_STORED') == '1' else
+         (sorted(glob.glob('/tmp/benign_C*/*/patch.diff')) or sorted(glob.glob('/verif/benign/*/patch.diff'))))
 if len(sys.argv) > 1:
     paths = [p for p in paths if any(k in p for k in sys.argv[1].split(','))]
 res = {}
-if os.path.exists('/tmp/benign_results.json'):
-    res = json.load(open('/tmp/benign_results.json'))
+RES = os.environ.get('BENIGN_RESULTS', '/tmp/benign_results.json')
+if os.path.exists(RES):
+    res = json.load(open(RES))
 paths = [p for p in paths if ((p.split('/')[2].replace('benign_', '') + '-' + p.split('/')[3]) if p.startswith('/tmp/') else p.split('/')[3]) not in res]
-with ThreadPoolExecutor(5) as ex:
+with ThreadPoolExecutor(int(os.environ.get('BENIGN_JOBS', '5'))) as ex:
     for name, out in ex.map(one, paths):
         res[name] = out
         bad = {c: v for c, v in out.items() if isinstance(v, dict) and v.get('rc')}
         print(name, 'tests rc', out.get('tests'), 'ALARMS:' if bad else 'quiet', json.dumps(bad)[:600])
         sys.stdout.flush()
-        json.dump(res, open('/tmp/benign_results.json', 'w'), indent=1)
+        json.dump(res, open(RES, 'w'), indent=1)
